@@ -166,6 +166,36 @@ inductive StoreKind where
   | none      -- `state.store is None`
   | noFn      -- store without a callable `apply_deltas`
   | fn
+  | attrRaises -- looking up `store.apply_deltas` itself raises (guarded: treated like `noFn`)
+deriving Repr, DecidableEq, Inhabited
+
+/-! The rest of the store surface the apply → snapshot path touches
+(`snapshot.py:_export_store_for_snapshot`): `store.export_state` and `store.w`.  Each can be
+missing, well-behaved, or faulty in every way the code can observe. -/
+
+/-- `store.export_state` -/
+inductive ExportMode where
+  | absent      -- no such attribute / not callable
+  | ok          -- returns something JSON-serialisable
+  | raises      -- the call raises (any `Exception`)
+  | garbage     -- returns something `json.dumps` rejects
+  | attrRaises  -- the attribute lookup itself raises
+deriving Repr, DecidableEq, Inhabited
+
+/-- `store.w` (weight map fallback) -/
+inductive WMode where
+  | absent      -- missing / not a dict
+  | ok
+  | badKey      -- some keys are not `(kind, id, attr)` triples (skipped by the code)
+  | badValue    -- some value is not `float()`-convertible
+  | attrRaises  -- the attribute lookup itself raises
+deriving Repr, DecidableEq, Inhabited
+
+/-- The `store` section of the snapshot payload. -/
+inductive Section where
+  | empty       -- `{}`
+  | state       -- `{"state": …}`
+  | weights     -- `{"weights": […]}`
 deriving Repr, DecidableEq, Inhabited
 
 structure In where
@@ -180,6 +210,8 @@ structure In where
   snapFault : Bool                    -- `write_snapshot` raises when called
   deltas : List Delta
   script : List Outcome
+  exportMode : ExportMode := .absent
+  wMode : WMode := .absent
 deriving Repr, DecidableEq, Inhabited
 
 /-- Arguments `write_snapshot` was called with. -/
@@ -197,8 +229,25 @@ structure Out where
   invalidated : Nat
   cm : Option Cache
   snap : Option SnapRec       -- `write_snapshot` invoked with …
-  raised : Bool               -- the unguarded `write_snapshot` raised ⇒ `apply_changes` raised
+  raised : Bool               -- the snapshot *file write* raised ⇒ `apply_changes` raised
+  snapStore : Option Section := none  -- `store` section of the file written (none: no file)
 deriving Repr, DecidableEq, Inhabited
+
+/-- `_export_store_for_snapshot` under the guard in `write_snapshot`: a failing or unserialisable
+export degrades to `{}`; it never propagates. -/
+def storeSection (i : In) : Section :=
+  match i.store with
+  | .none => .empty
+  | _ =>
+    match i.exportMode with
+    | .ok => .state
+    | .garbage => .empty
+    | .attrRaises => .empty
+    | _ =>
+      match i.wMode with
+      | .ok => .weights
+      | .badKey => .weights
+      | _ => .empty
 
 def storeAcc (i : In) : Acc :=
   match i.store with
@@ -232,7 +281,8 @@ def apply (i : In) : Out :=
   { calls := a.calls, applied := a.applied, clamps := a.clamps, version := v,
     invalidated := inv.2, cm := inv.1,
     snap := if snap then some ⟨v, a.applied, snapDeltas i⟩ else none,
-    raised := snap && i.snapFault }
+    raised := snap && i.snapFault,
+    snapStore := if snap && !i.snapFault then some (storeSection i) else none }
 
 /-! ### the hand-off language and the spec the monitors evaluate -/
 
@@ -267,6 +317,7 @@ def specCadence (i : In) (o : Out) : Bool :=
 /-- errors inside the store / cache manager never abort: only the unguarded snapshot write may -/
 def specTotal (i : In) (o : Out) : Bool :=
   o.raised == (shouldSnapshot i.turn i.every && i.snapFault)
+  && o.snapStore == (if shouldSnapshot i.turn i.every && !i.snapFault then some (storeSection i) else none)
 
 /-- configured namespaces invalidated when busting is on; count = entries removed; else untouched -/
 def specInvalidate (i : In) (o : Out) : Bool :=
@@ -284,6 +335,30 @@ def spec (i : In) (o : Out) : Bool :=
   specHandoff i o && specOnce i o && specVersion i o && specCadence i o && specTotal i o
   && specInvalidate i o
 
+/-! ### canonical order (T4 → Apply composition) -/
+
+/-- Python `str` `<=` on code-point lists. -/
+def lexLe : List Nat → List Nat → Bool
+  | [], _ => true
+  | _ :: _, [] => false
+  | a :: as, b :: bs => if a < b then true else if b < a then false else lexLe as bs
+
+/-- Non-decreasing in the canonical key `f"{kind}:{id}:{attr}"`. -/
+def keysSortedB : List (List Nat) → Bool
+  | [] => true
+  | [_] => true
+  | a :: b :: r => lexLe a b && keysSortedB (b :: r)
+
+/-- Monitor for the composition stream: the batch the store received carries exactly the keys T4
+approved, in the same order, and that order is the canonical one; every further call is a
+singleton re-submission in the same order. -/
+def canonHandoffB (approved : List (List Nat)) (calls : List (List (List Nat))) : Bool :=
+  match calls with
+  | [] => false
+  | batch :: rest =>
+    batch == approved && keysSortedB batch
+    && (rest == [] || rest == approved.map (fun k => [k]))
+
 /-! ### histories of turns through `run_turn` -/
 
 structure TurnIn where
@@ -296,6 +371,8 @@ structure TurnIn where
   cmFault : Option Nat
   deltas : List Delta                 -- what the (stubbed) T4 approves this turn
   script : List Outcome
+  exportMode : ExportMode := .absent
+  wMode : WMode := .absent
 deriving Repr, DecidableEq, Inhabited
 
 /-- One `apply.jsonl` record. -/
@@ -328,7 +405,7 @@ def t2Insert (cm : Option Cache) : Option Cache := cm.map (fun c => c.add 0)
 def toIn (s : HState) (t : TurnIn) : In :=
   { store := t.store, ver := s.ver, turn := t.turn, every := t.every, bust := t.bust,
     namespaces := t.namespaces, cm := t2Insert s.cm, cmFault := t.cmFault, snapFault := false,
-    deltas := t.deltas, script := t.script }
+    deltas := t.deltas, script := t.script, exportMode := t.exportMode, wMode := t.wMode }
 
 def runTurn (s : HState) (t : TurnIn) : HState :=
   if t.enabled then
